@@ -109,6 +109,10 @@ func cfgTree(cs cfgCase) (map[string]string, api.BuildOptions) {
 	lib("node_modules/pkg/")
 	files["node_modules/pkg/package.json"] = `{"name":"pkg","main":"./index.js"}`
 	key := cs.Family.KeyPrefix + cs.Key
+	// %KEY% in a target stands for the key of the entry itself (self-referential targets, TokensCfg!Targets)
+	cs.Target.PJ = strings.ReplaceAll(cs.Target.PJ, "%KEY%", cs.Key)
+	cs.Target.TS = strings.ReplaceAll(cs.Target.TS, "%KEY%", cs.Key)
+	cs.Target.Alias = strings.ReplaceAll(cs.Target.Alias, "%KEY%", cs.Key)
 	o := api.BuildOptions{EntryPoints: []string{"entry.ts"}, Bundle: true, Write: false, Outdir: "out", LogLevel: api.LogLevelSilent, Format: api.FormatESModule}
 	switch cs.Platform {
 	case "node":
@@ -140,6 +144,12 @@ func cfgTree(cs cfgCase) (map[string]string, api.BuildOptions) {
 		files["package.json"] = fmt.Sprintf(`{"name":"x","browser":%s}`, m)
 		files["node_modules/pkg/package.json"] = fmt.Sprintf(`{"name":"pkg","main":"./index.js","browser":%s}`, m)
 		prefixes = []string{"", "./", "pkg/"}
+	case "sideEffects":
+		globs := []string{key, "./" + key, key + "/**", "**/" + key, "?" + key, "[" + key, key + "[a-b]?"}
+		gb, _ := json.Marshal(globs)
+		files["node_modules/pkg/package.json"] = fmt.Sprintf(`{"name":"pkg","main":"./index.js","sideEffects":%s}`, gb)
+		files["package.json"] = fmt.Sprintf(`{"name":"x","sideEffects":%s}`, gb)
+		prefixes = []string{cs.Family.ReqPrefix, "./"}
 	case "alias":
 		if cs.Target.Alias != "" {
 			o.Alias = map[string]string{key: cs.Target.Alias}
